@@ -18,6 +18,7 @@ pub mod c14;
 pub mod c15;
 pub mod c16;
 pub mod c18;
+pub mod c19;
 pub mod c20;
 
 pub fn spec(id: &str) -> Option<PropSpec> {
@@ -39,6 +40,7 @@ pub fn spec(id: &str) -> Option<PropSpec> {
         "C15" => Some(c15::spec()),
         "C16" => Some(c16::spec()),
         "C18" => Some(c18::spec()),
+        "C19" => Some(c19::spec()),
         "C20" => Some(c20::spec()),
         _ => None,
     }
